@@ -53,12 +53,25 @@ package ugo
 //@ ensures e != nil && e.Cause == error(ErrType)
 //@ property C15
 
-//@ func (String).BinaryOp, (Bytes).BinaryOp
+//@ func (String).BinaryOp
 //@ params o tok right
 //@ results v err
 //@ requires validObj(right)
 //@ ensures[order]    specIsOrderTok(tok) && specScalar(right) && specOrderDefined(o, right) ==> err == nil && v == Object(Bool(specOrder(tok, o, right)))
 //@ ensures[errkind]  err != nil ==> v == nil && specDocumentedError(err)
+//@ cases right: Int, Uint, Float, Char, Bool, String, Bytes, *UndefinedType, other
+//@ cases tok: token.Add, token.Less, token.LessEq, token.Greater, token.GreaterEq, other
+//@ property C15
+
+// bytes + x appends in place when the receiver has spare capacity: the
+// backing array of o (beyond len(o)) is in the frame.
+//@ func (Bytes).BinaryOp
+//@ params o tok right
+//@ results v err
+//@ requires validObj(right)
+//@ ensures[order]    specIsOrderTok(tok) && specScalar(right) && specOrderDefined(o, right) ==> err == nil && v == Object(Bool(specOrder(tok, o, right)))
+//@ ensures[errkind]  err != nil ==> v == nil && specDocumentedError(err)
+//@ modifies o[*]
 //@ cases right: Int, Uint, Float, Char, Bool, String, Bytes, *UndefinedType, other
 //@ cases tok: token.Add, token.Less, token.LessEq, token.Greater, token.GreaterEq, other
 //@ property C15
@@ -156,3 +169,17 @@ package ugo
 //@ ensures[falsy] ok ==> litValue(expr) != nil && falsy == specFalsy(litValue(expr))
 //@ ensures[total] litValue(expr) != nil ==> ok
 //@ property C01
+
+// The VM's unary operator instruction computes the same specUnary the
+// optimizer's unaryop is proved against (C01), with the documented errors (C15).
+//@ func (*VM).xOpUnary
+//@ params vm
+//@ results err
+//@ requires vm != nil && vm.ip >= 0 && vm.ip < len(vm.curInsts)-1 && vm.sp >= 1 && vm.sp <= stackSize
+//@ requires specScalar(vm.stack[vm.sp-1])
+//@ ensures[value]   specUnaryOut(token.Token(old(vm.curInsts[vm.ip+1])), old(vm.stack[vm.sp-1])) == oValue ==> err == nil && vm.stack[vm.sp-1] == specUnaryVal(token.Token(old(vm.curInsts[vm.ip+1])), old(vm.stack[vm.sp-1]))
+//@ ensures[typeerr] specUnaryOut(token.Token(old(vm.curInsts[vm.ip+1])), old(vm.stack[vm.sp-1])) == oTypeErr ==> isTypeError(err)
+//@ ensures[step]    err == nil ==> vm.ip == old(vm.ip)+1 && vm.sp == old(vm.sp)
+//@ ensures[errkind] err != nil ==> vm.ip == old(vm.ip) && vm.sp == old(vm.sp) && vm.stack[vm.sp-1] == old(vm.stack[vm.sp-1])
+//@ modifies vm.ip, vm.stack
+//@ property C01 C15
